@@ -457,10 +457,14 @@ def c18(stream, scen):
 
 
 def c19(stream, scen):
-    """periodic measurements at k*interval; all series (incl. time) aligned and within capacity."""
+    """periodic measurements exactly k intervals after the start (k-fold repeated addition of the
+    interval, also on a non-dyadic grid); all series (incl. time) aligned and within capacity."""
     wit = []
     sens = []
+    tick = 16.0
     for l in scen or []:
+        if l[0] == 'tick':
+            tick = float(l[1])
         if l[0] == 'asset' and l[1] == 'sensor':
             kv = dict(t.split('=', 1) for t in l[3:] if '=' in t)
             sens.append((l[2], kv))
@@ -477,7 +481,7 @@ def c19(stream, scen):
             kind, kv = sens[si]
             d = kvline(v)
             series = [[] if x == '-' else x.split(';') for x in d['data'].split('|')]
-            tm = [] if d['time'] == '-' else [int(x) for x in d['time'].split(';')]
+            tm = [] if d['time'] == '-' else [num(x) / 16.0 for x in d['time'].split(';')]
             lens = set(len(x) for x in series)
             cap = kv.get('cap', 'def')
             if len(lens) > 1:
@@ -487,9 +491,15 @@ def c19(stream, scen):
             if kind == 'per':
                 if lens and len(tm) not in lens:
                     wit.append(f'frame {i}: sensor {si} time series has {len(tm)} entries, probe series {lens}')
-                iv = int(kv.get('interval', '16'))
-                if any(x % iv != 0 or x <= 0 for x in tm) or any(b - a != iv for a, b in zip(tm, tm[1:])):
-                    wit.append(f'frame {i}: sensor {si} measured at {tm}, interval {iv}')
+                iv = int(kv.get('interval', '16')) / tick
+                # the window [.., t] must be consecutive members of the sequence 0+iv, +iv, +iv, ...
+                if tm:
+                    t, seq = 0.0, []
+                    while t < tm[-1] and len(seq) < 100000:
+                        t = t + iv
+                        seq.append(t)
+                    if seq[-len(tm):] != tm:
+                        wit.append(f'frame {i}: sensor {si} measured at {tm[-4:]}, repeated addition of the interval {iv} gives {seq[-len(tm):][-4:]}')
     return wit
 
 
@@ -549,6 +559,15 @@ def c02(stream, scen=None):
     """every generated leaf part is in exactly one place: one device slot, delivered to one sink, or
     reported lost by one failure; a source never exceeds its budget."""
     wit = []
+    nshut = {}
+    di = 0
+    for l in scen or []:
+        if l[:2] == ['asset', 'dev']:
+            kv = dict(t.split('=', 1) for t in l[3:] if '=' in t)
+            nshut[di] = int(kv.get('nshut', '0'))
+            di += 1
+        elif l[:2] == ['asset', 'group']:
+            di += 2
     fs = frames(stream)
     generated, delivered, lost = [], [], []
     known = {}                      # last known part table (p lines persist in `state`)
@@ -567,6 +586,11 @@ def c02(stream, scen=None):
                 delivered += leaves(src if int(t[3]) in src else parts, int(t[3]))
             if t[0] == 'device_failure' and t[3] != '-':
                 lost += leaves(prev_parts if int(t[3]) in prev_parts else parts, int(t[3]))
+                if nshut.get(int(t[1]), 0) > 0:
+                    told = [r.split()[4] for r in f.results if r.startswith(f'shut {t[1]} ') and r.split()[3] == '1']
+                    if told.count(t[3]) != nshut[int(t[1])]:
+                        wit.append(f'frame {i} (t={f.now}): part {t[3]} lost by the failure of machine {t[1]} was reported to '
+                                   f'{told.count(t[3])} of its {nshut[int(t[1])]} shutdown callbacks')
         inside = []
         for d in devs.values():
             if d.kind == 'sink':
@@ -656,13 +680,18 @@ def c05(stream, scen=None):
 
 
 def c08(stream, scen=None):
-    """a held part's history ends at its holder; a part held by a member of a group has a path of
-    that group on top of its stack, a part outside every group has an empty stack; a device with a
-    blocked input receives nothing; collected parts are in arrival order."""
+    """every leaf part inside a device has a history that ends at that device and is a walk along
+    configured connections (group input/output transparent, leaving a group through a path of that
+    group); a part held by a member of a group has a path of that group on top of its stack, a part
+    outside every group has an empty stack; a device with a blocked input receives nothing; collected
+    parts are in arrival order."""
     wit = []
     member_group = {}
     path_group = {}
+    group_io = {}
     di = 0
+    rewired = any((l[0] == 'script' and l[2] == 'rewire') or (l[0] == 'ext' and l[1] in ('rewire', 'create'))
+                  or (l[0] == 'script' and l[2] == 'create') for l in (scen or []))
     for l in scen or []:
         if l[:2] == ['asset', 'dev']:
             kv = dict(t.split('=', 1) for t in l[3:] if '=' in t)
@@ -673,11 +702,13 @@ def c08(stream, scen=None):
             kv = dict(t.split('=', 1) for t in l[3:] if '=' in t)
             for m in kv['devs'].split(','):
                 member_group.setdefault(int(m), []).append(int(l[2]))
+            group_io[int(l[2])] = (di, di + 1)
             di += 2
     nested = any(len(v) > 1 for v in member_group.values()) or any(p in member_group for p in path_group)
     fs = frames(stream)
     prev = None
     collected = {}
+    checked = set()
     for i, f in enumerate(fs):
         if f.trigger[0] == 'abort':
             return wit
@@ -685,28 +716,74 @@ def c08(stream, scen=None):
             continue
         devs = devs_of(f.state)
         parts = parts_of(f.state)
+        dn = {x: [int(z) for z in plist_(d.f.get('dn', '-'))] for x, d in devs.items()}
+        paths_of = {}
+        for p, g in path_group.items():
+            paths_of.setdefault(g, []).append(p)
+
+        def edge_ok(a, b):
+            if b in dn.get(a, []):
+                return True
+            if a in path_group:                       # a path hands over to the group's input devices
+                gi = group_io.get(path_group[a], (None, None))[0]
+                if gi is not None and b in dn.get(gi, []):
+                    return True
+            for g, (gi, go) in group_io.items():       # a device feeding the group's output: leaves by a path
+                if go in dn.get(a, []):
+                    if any(b in dn.get(p, []) for p in paths_of.get(g, [])):
+                        return True
+                    # innermost first: the path's downstream may itself be a group's output (nested)
+                    for p in paths_of.get(g, []):
+                        for g2, (gi2, go2) in group_io.items():
+                            if go2 in dn.get(p, []) and any(b in dn.get(p2, []) for p2 in paths_of.get(g2, [])):
+                                return True
+            return False
+
         for x, d in devs.items():
-            for p in d.held():
-                r = parts.get(p)
+            for top in d.held():
+                r = parts.get(top)
                 if r is None:
                     continue
-                if d.kind == 'batcher' and d.slot('inprog') == p:
+                for p in leaves(parts, top):
+                    rp = parts.get(p)
+                    if rp is None:
+                        continue
+                    if not rp['hist'] or rp['hist'][-1] != x:
+                        wit.append(f'frame {i}: part {p} is inside device {x} but its routing history ends with {rp["hist"][-2:]}')
+                    key = (p, len(rp['hist']))
+                    if not rewired and key not in checked:
+                        checked.add(key)
+                        h = rp['hist']
+                        for a, b in zip(h, h[1:]):
+                            if not edge_ok(a, b):
+                                wit.append(f'frame {i}: routing history of part {p} is {h}: {a} -> {b} is not a configured connection')
+                                break
+                if d.kind == 'batcher' and d.slot('inprog') == top:
                     continue
-                if not r['hist'] or r['hist'][-1] != x:
-                    if not (d.kind == 'batcher'):   # parts unpacked by a batcher keep the history they arrived with
-                        wit.append(f'frame {i}: part {p} is held by device {x} but its history ends with {r["hist"][-1:]}')
                 if x in member_group and not nested:
                     g = member_group[x][0]
                     if not r['stack'] or path_group.get(r['stack'][-1]) != g:
-                        wit.append(f'frame {i}: part {p} is inside group {g} (device {x}) but the top of its path stack is {r["stack"][-1:]}')
-                if x not in member_group and not nested and r['stack']:
-                    wit.append(f'frame {i}: part {p} is outside every group (device {x}) but its path stack is {r["stack"]}')
+                        wit.append(f'frame {i}: part {top} is inside group {g} (device {x}) but the top of its path stack is {r["stack"][-1:]}')
+                if x in member_group and nested and (not r['stack'] or path_group.get(r['stack'][-1]) not in member_group[x]):
+                    wit.append(f'frame {i}: part {top} is inside groups {member_group[x]} (device {x}) but the top of its path stack is {r["stack"][-1:]}')
+                if x not in member_group and x not in path_group and r['stack'] and not nested:
+                    wit.append(f'frame {i}: part {top} is outside every group (device {x}) but its path stack is {r["stack"]}')
             if d.kind == 'sink':
                 c = [int(z) for z in plist_(d.f.get('coll', '-'))]
                 old = collected.get(x, [])
                 if c[:len(old)] != old:
                     wit.append(f'frame {i}: collected list of sink {x} is not append-only: {old} -> {c}')
                 collected[x] = c
+                for p in c[len(old):]:
+                    rp = parts.get(p)
+                    if rp is not None and not rewired:
+                        h = rp['hist']
+                        for a, b in zip(h, h[1:]):
+                            if not edge_ok(a, b):
+                                wit.append(f'frame {i}: routing history of collected part {p} is {h}: {a} -> {b} is not a configured connection')
+                                break
+                        if rp['stack']:
+                            wit.append(f'frame {i}: collected part {p} still has group paths {rp["stack"]} on its stack')
         if prev is not None:
             pd = devs_of(prev.state)
             for rec in f.recs:
@@ -854,6 +931,12 @@ def c15(stream, scen=None):
         if f.now is None or f.trigger[0] in ('ran', 'runbegin'):
             continue
         devs = devs_of(f.state)
+        # one failure record per failure occurrence (occurrences seen through the shutdown callbacks)
+        failed_cb = set(r.split()[1] for r in f.results if r.startswith('shut ') and r.split()[3] == '1')
+        for x in failed_cb:
+            nrec = sum(1 for r in f.recs if r.startswith(f'device_failure {x} '))
+            if nrec != 1:
+                wit.append(f'frame {i} (t={f.now}): machine {x} failed (its shutdown callbacks were told so) but {nrec} device_failure records were written')
         for x, d in devs.items():
             if d.kind == 'buffer' and x in last_level and last_level[x] != int(d.f['lvl']):
                 wit.append(f'frame {i}: last level record of buffer {x} is {last_level[x]}, level is {d.f["lvl"]}')
@@ -873,8 +956,41 @@ def c15(stream, scen=None):
 
 
 def c16(stream, scen=None):
-    """value bookkeeping checked on the live objects by the runner (ValueRunner)"""
-    return [l for l in stream if l.startswith('valbad')][:5]
+    """value bookkeeping checked on the live objects by the runner (ValueRunner); plus, from the
+    stream: a source's value is minus the summed value its supplied parts had when they were
+    supplied, a sink's value the summed value of the parts at receipt."""
+    wit = [l for l in stream if l.startswith('valbad')][:5]
+    fs = frames(stream)
+    prev_parts = {}
+    cost, recv = {}, {}
+    for i, f in enumerate(fs):
+        if f.trigger[0] == 'abort':
+            return wit
+        if f.now is None or f.trigger[0] in ('ran', 'runbegin'):
+            continue
+        parts = parts_of(f.state)
+        devs = devs_of(f.state)
+        for rec in f.recs:
+            t = rec.split()
+            if t[0] == 'supplied_new_part':
+                p = int(t[3])
+                if p in prev_parts:
+                    cost[int(t[1])] = cost.get(int(t[1]), 0) + int(prev_parts[p]['v'])
+                else:
+                    cost[int(t[1])] = None
+            if t[0] == 'received_part' and int(t[1]) in devs and devs[int(t[1])].kind == 'sink':
+                if recv.get(int(t[1]), 0) is not None:
+                    recv[int(t[1])] = recv.get(int(t[1]), 0) + int(t[5])
+        for x, d in devs.items():
+            if d.kind == 'source' and cost.get(x) is not None and x in cost:
+                if int(d.f['val']) != -cost[x]:
+                    wit.append(f'frame {i} (t={f.now}): source {x} has value {d.f["val"]}, the parts it supplied were worth {cost[x]} when supplied')
+            if d.kind == 'sink' and x in recv and int(d.f['val']) != recv[x]:
+                wit.append(f'frame {i} (t={f.now}): sink {x} has value {d.f["val"]}, the parts it received were worth {recv[x]} at receipt')
+        prev_parts = parts
+        if len(wit) > 5:
+            break
+    return wit
 
 
 def c17(stream, scen=None):
@@ -932,7 +1048,7 @@ def c17(stream, scen=None):
 
 
 MONITORS.update({'C02': [c02], 'C03': [c03], 'C05': [c05], 'C08': [c08], 'C11': [c11], 'C13': [c13],
-                 'C15': [c15], 'C16': [c16], 'C17': [c17]})
+                 'C15': [c15], 'C16': [c16], 'C17': [c17, c05]})
 
 
 # ------------------------------------------------------------------------------------------ C04
@@ -1025,12 +1141,15 @@ def c06(stream, scen=None):
     cycle time after the previous one."""
     wit = []
     cbs = {}
+    fcbs = {}
     di = 0
     for l in scen or []:
         if l[:2] == ['asset', 'dev']:
             kv = dict(t.split('=', 1) for t in l[3:] if '=' in t)
             if 'recvcb' in kv:
                 cbs[di] = [c.split(':') for c in kv['recvcb'].split(',')]
+            if 'fincb' in kv:
+                fcbs[di] = [c.split(':') for c in kv['fincb'].split(',')]
             di += 1
         elif l[:2] == ['asset', 'group']:
             di += 2
@@ -1088,6 +1207,11 @@ def c06(stream, scen=None):
                     if cb[0] != '-':
                         cyc = int(cb[0])
                 c = max(0, cyc + off)
+                fin_here = any(r.startswith(f'produced_part {x} ') for r in f.recs)
+                allowed = sum(int(c[1]) for c in fcbs.get(x, [])) if fin_here else 0
+                later_ops = any(l[0] == 'script' and l[2] == 'offset' and l[3] == str(x) for l in (scen or []))
+                if int(d.f.get('off', '0')) != allowed and not later_ops:
+                    wit.append(f'frame {i}: device {x} accepted part {pid} but its one-shot cycle-time offset is still {d.f.get("off")}')
                 if d.slot('part') == pid:
                     if x in cur:
                         wit.append(f'frame {i}: device {x} accepted part {pid} while still processing {cur[x][0]}')
